@@ -1,40 +1,12 @@
 ------------------------------ MODULE MC_Sweep -------------------------------
-(* Machine layer for C17: the two-pointer sweep of get_matched_indices        *)
-(* (a lower pointer shared by all theoretical values, an upper pointer        *)
-(* restarted from it), one action per loop iteration, checked against         *)
+(* Machine layer for C17: the sweep machine (Sweep.tla) checked against       *)
 (* Match!Window for every pair of sorted lists on a small grid.               *)
-EXTENDS Match, TLC
+EXTENDS Sweep, TLC
 CONSTANTS MaxTheo, MaxObs, Grid, MaxTol
-VARIABLES theo, obs, tol, i, lo, hi, pc, out
-vars == <<theo, obs, tol, i, lo, hi, pc, out>>
 
 SortedSeqs(n) == UNION { { s \in [1..k -> 0..Grid] : Sorted(s) } : k \in 0..n }
 
 Init == /\ theo \in SortedSeqs(MaxTheo) /\ obs \in SortedSeqs(MaxObs) /\ tol \in 0..MaxTol
         /\ i = 1 /\ lo = 0 /\ hi = 0 /\ pc = "next" /\ out = <<>>
-
-(* "next": start the iteration for theo[i] (or stop) *)
-Start == /\ pc = "next" /\ i <= Len(theo)
-         /\ IF lo >= Len(obs) THEN /\ out' = Append(out, {}) /\ i' = i + 1 /\ UNCHANGED <<pc, lo, hi>>
-            ELSE /\ pc' = "lo" /\ UNCHANGED <<out, i, lo, hi>>
-         /\ UNCHANGED <<theo, obs, tol>>
-AdvanceLo == /\ pc = "lo"
-             /\ IF lo < Len(obs) /\ obs[lo + 1] < theo[i] - tol
-                THEN lo' = lo + 1 /\ UNCHANGED <<pc, hi, out, i>>
-                ELSE IF lo >= Len(obs) THEN /\ out' = Append(out, {}) /\ i' = i + 1 /\ pc' = "next" /\ UNCHANGED <<lo, hi>>
-                ELSE /\ hi' = lo /\ pc' = "hi" /\ UNCHANGED <<lo, out, i>>
-             /\ UNCHANGED <<theo, obs, tol>>
-ExtendHi == /\ pc = "hi"
-            /\ IF hi < Len(obs) /\ obs[hi + 1] <= theo[i] + tol
-               THEN hi' = hi + 1 /\ UNCHANGED <<pc, lo, out, i>>
-               ELSE /\ out' = Append(out, IF hi - 1 < lo THEN {} ELSE lo..(hi - 1))
-                    /\ i' = i + 1 /\ pc' = "next" /\ UNCHANGED <<lo, hi>>
-            /\ UNCHANGED <<theo, obs, tol>>
-Next == Start \/ AdvanceLo \/ ExtendHi
 Spec == Init /\ [][Next]_vars
-
-(* every emitted window is exactly the declarative window *)
-Refines == \A q \in 1..Len(out) : out[q] = Window(theo[q], obs, "th", tol)
-(* the shared lower pointer never passes a peak a later theoretical value still needs *)
-LoSafe == \A q \in i..Len(theo) : \A j \in Window(theo[q], obs, "th", tol) : (q > i \/ pc # "hi") => j >= lo \/ q < i
 ==============================================================================
